@@ -245,12 +245,14 @@ def compile_props(pid, timeout=1200):
         res['errors'] = [{'file': 'ND/Props/%s.v' % pid, 'line': 0, 'lemma': None,
                           'message': 'could not match Print Assumptions output (%d blocks, %d commands)' % (len(blocks), len(printed))}]
         return res
+    bundles = {m.group(1): re.findall(r'\w+', m.group(2)) for m in re.finditer(r'Definition\s+(\w+_bundle)\s*:=\s*\(([^.]*)\)\s*\.', txt)}
     for name, b in zip(printed, blocks):
         axs = []
         if b.startswith('Axioms:'):
             axs = re.findall(r'^(\S+)\s*:', b[len('Axioms:'):], re.M)
             axs = [a for a in axs if a]
-        res['assumptions'][name] = axs
+        for member in bundles.get(name, [name]):
+            res['assumptions'][member] = axs
         for a in axs:
             if a not in ALLOWED_AXIOMS and not a.startswith(ALLOWED_PREFIXES):
                 res['bad_axioms'].append((name, a))
@@ -535,12 +537,10 @@ def val_from_otoks(toks, ty, i=0):
     """model output (decoded otok list) -> (value, next index); collects oracle misses"""
     if ty.is_float:
         t = toks[i]
-        if t[0] == 'miss':
-            keys = []
-            while i < len(toks) and toks[i][0] == 'miss':
-                keys.append(toks[i][1])
-                i += 1
-            return ('miss', keys), i
+        if t[0] == 'tag' and t[1] < 0:
+            n = -t[1]
+            keys = [toks[i + 1 + k][1] for k in range(n)]
+            return ('miss', keys), i + 1 + n
         assert t[0] == 'bits', (t, ty)
         return t[1], i + 1
     out = []
@@ -653,7 +653,7 @@ def decode_result(kind, toks, ty, src):
         if kind == 'bool':
             return toks[0][1] == 1
         if kind == 'float':
-            if toks[0][0] == 'miss':
+            if toks[0][0] == 'tag' and toks[0][1] < 0:
                 return ('miss', [t[1] for t in toks if t[0] == 'miss'])
             return canon_bits(toks[0][1], 64)
         if kind == 'int':
